@@ -15,10 +15,10 @@
 (* never sees a height that is not committed), NoTornCache.                *)
 (***************************************************************************)
 EXTENDS Integers, Sequences, FiniteSets, TLC
-CONSTANTS N, P, Readers, Locked, PublishEarly, MaxCalls
+CONSTANTS N, P, Readers, Locked, PublishEarly, MaxCalls, MaxFails, PublishOnFail
 
-VARIABLES rated, cache, c, spc, loc, committed, memSynced, out, resp, calls
-vars == <<rated, cache, c, spc, loc, committed, memSynced, out, resp, calls>>
+VARIABLES rated, cache, c, spc, loc, committed, memSynced, out, resp, calls, fails
+vars == <<rated, cache, c, spc, loc, committed, memSynced, out, resp, calls, fails>>
 Procs == {"sync"} \cup Readers
 
 L == INSTANCE Ledger WITH
@@ -39,7 +39,7 @@ MutateData(kh, d, r) ==
 
 Idle == [pc |-> "idle", r |-> 0]
 Init == /\ rated \in [1..N -> BOOLEAN] /\ cache = [h |-> 0, d |-> <<>>] /\ c = 0 /\ spc = "idle"
-        /\ loc = [p \in Procs |-> Idle] /\ committed = 0 /\ memSynced = 0 /\ out = <<>> /\ resp = <<>> /\ calls = 0
+        /\ loc = [p \in Procs |-> Idle] /\ committed = 0 /\ memSynced = 0 /\ out = <<>> /\ resp = <<>> /\ calls = 0 /\ fails = 0
 
 \* ---- the cache function
 Enter(p, r) == IF Locked
@@ -55,43 +55,53 @@ Mutate(p) == /\ loc[p].pc = "mutate"
 Publish(p) == /\ loc[p].pc = "publish"
               /\ cache' = [cache EXCEPT !.h = loc[p].r]
               /\ loc' = [loc EXCEPT ![p].pc = "done"]
-CacheStep(p) == (Check(p) \/ Mutate(p) \/ Publish(p)) /\ UNCHANGED <<rated, c, spc, committed, memSynced, out, resp, calls>>
+CacheStep(p) == (Check(p) \/ Mutate(p) \/ Publish(p)) /\ UNCHANGED <<rated, c, spc, committed, memSynced, out, resp, calls, fails>>
 
 \* ---- sync loop
-SyncBegin == /\ spc = "idle" /\ c < N /\ c' = c + 1
-             /\ IF rated[c + 1] /\ Lr(c + 1) > 0
-                  THEN /\ spc' = "avg" /\ Enter("sync", Lr(c + 1))
+\* the height applied next is the in-memory height + 1 (d.Sync.Synced + 1), not a loop counter
+SyncBegin == /\ spc = "idle" /\ ~(PublishEarly /\ memSynced # committed) /\ memSynced < N /\ c' = memSynced + 1
+             /\ IF rated[memSynced + 1] /\ Lr(memSynced + 1) > 0
+                  THEN /\ spc' = "avg" /\ Enter("sync", Lr(memSynced + 1))
                   ELSE /\ spc' = "apply" /\ UNCHANGED <<loc, cache>>
-             /\ UNCHANGED <<rated, committed, memSynced, out, resp, calls>>
+             /\ UNCHANGED <<rated, committed, memSynced, out, resp, calls, fails>>
 SyncAvgDone == /\ spc = "avg" /\ loc["sync"].pc = "done"
                /\ out' = Append(out, [r |-> loc["sync"].r, d |-> cache.d])
                /\ loc' = [loc EXCEPT !["sync"] = Idle] /\ spc' = "apply"
-               /\ UNCHANGED <<rated, cache, c, committed, memSynced, resp, calls>>
+               /\ UNCHANGED <<rated, cache, c, committed, memSynced, resp, calls, fails>>
 SyncBump == /\ spc = "apply" /\ PublishEarly
             /\ memSynced' = c /\ spc' = "commit"
-            /\ UNCHANGED <<rated, cache, c, loc, committed, out, resp, calls>>
+            /\ UNCHANGED <<rated, cache, c, loc, committed, out, resp, calls, fails>>
 SyncCommit == /\ spc = (IF PublishEarly THEN "commit" ELSE "apply")
               /\ committed' = c /\ memSynced' = c /\ spc' = "idle"
-              /\ UNCHANGED <<rated, cache, c, loc, out, resp, calls>>
+              /\ UNCHANGED <<rated, cache, c, loc, out, resp, calls, fails>>
+\* COMMIT fails (e.g. SQLITE_BUSY because a reader's cursor is still open): the transaction is gone, the block is
+\* retried; the in-memory height must still be the committed one.  PublishOnFail = TRUE models publishing the new
+\* height whether or not COMMIT succeeded.
+SyncCommitFail == /\ spc = (IF PublishEarly THEN "commit" ELSE "apply") /\ fails < MaxFails
+                  /\ fails' = fails + 1 /\ spc' = "idle"
+                  /\ memSynced' = IF PublishOnFail THEN c ELSE committed
+                  /\ UNCHANGED <<rated, cache, c, loc, committed, out, resp, calls>>
 
 \* ---- readers
 ReadSync(p) == /\ loc[p].pc = "idle" /\ calls < MaxCalls
                /\ resp' = Append(resp, [seen |-> memSynced, committed |-> committed]) /\ calls' = calls + 1
-               /\ UNCHANGED <<rated, cache, c, spc, loc, committed, memSynced, out>>
+               /\ UNCHANGED <<rated, cache, c, spc, loc, committed, memSynced, out, fails>>
 RichList(p) == /\ loc[p].pc = "idle" /\ calls < MaxCalls
                /\ LET r == Lr(committed + 1) IN r > 0 /\ Enter(p, r)
                /\ calls' = calls + 1
-               /\ UNCHANGED <<rated, c, spc, committed, memSynced, out, resp>>
+               /\ UNCHANGED <<rated, c, spc, committed, memSynced, out, resp, fails>>
 ReaderDone(p) == /\ loc[p].pc = "done" /\ loc' = [loc EXCEPT ![p] = Idle]
-                 /\ UNCHANGED <<rated, cache, c, spc, committed, memSynced, out, resp, calls>>
+                 /\ UNCHANGED <<rated, cache, c, spc, committed, memSynced, out, resp, calls, fails>>
 
-Next == SyncBegin \/ SyncAvgDone \/ SyncBump \/ SyncCommit
+Next == SyncBegin \/ SyncAvgDone \/ SyncBump \/ SyncCommit \/ SyncCommitFail
         \/ (\E p \in Procs : CacheStep(p))
         \/ (\E p \in Readers : ReadSync(p) \/ RichList(p) \/ ReaderDone(p))
 Spec == Init /\ [][Next]_vars
 
 LedgerUnaffected == \A i \in 1..Len(out) : out[i].d = L!AvgWindow(SOf, out[i].r)
 RespCommitted == \A i \in 1..Len(resp) : resp[i].seen <= resp[i].committed
+\* heights are applied once each, in order: the block being applied is always the one after the last committed
+InOrder == spc # "idle" => c = committed + 1
 NoTornCache == (\A p \in Procs : loc[p].pc \notin {"mutate", "publish"}) /\ cache.h > 0 /\ rated[cache.h]
                  => cache.d = L!AvgWindow(SOf, cache.h)
 =============================================================================
